@@ -64,7 +64,7 @@ Definition len_v : value := VFun 0 [concat (TArr TAny) TString] TInt.
 Definition std_v : value := VStruct [(n_len, len_v)].
 Definition boot_scopes : scopes := [[(n_std, std_v)]].
 Definition dummy_pre : prelude := mkPrelude 0 0 0 0 0 0 0 0.
-Definition dummy_red : reducers := mkReducers VVoid VVoid VVoid VVoid.
+Definition dummy_red : reducers := mkReducers VVoid VVoid VVoid VVoid [] [].
 
 (* run one helper: parse_top then run_code, as the driver's run_lines *)
 Definition boot_one (cf xf : nat) (pre : prelude) (red : reducers) (st : store) (lines : list sline)
@@ -92,7 +92,7 @@ Definition boot (cf xf : nat) : option booted :=
   match boot_one cf xf pre1 dummy_red st4 H_OR with None => None | Some (st5, o) =>
   match boot_one cf xf pre1 dummy_red st5 H_ALL with None => None | Some (st6, al) =>
   match boot_one cf xf pre1 dummy_red st6 H_ANY with None => None | Some (st7, an) =>
-  let red := mkReducers al an a o in
+  let red := mkReducers al an a o [] [] in
   match boot_one cf xf pre1 red st7 H_INT_PRODUCT with None => None | Some (st8, ip) =>
   match boot_one cf xf pre1 red st8 H_FLOAT_PRODUCT with None => None | Some (st9, fp) =>
   match boot_one cf xf pre1 red st9 H_INT_SUM with None => None | Some (st10, is_) =>
@@ -101,7 +101,11 @@ Definition boot (cf xf : nat) : option booted :=
   Some (mkBooted st12
           (mkPrelude (fid_of m) (fid_of f) (fid_of it) (fid_of is_) (fid_of fs) (fid_of ss)
                      (fid_of ip) (fid_of fp))
-          red)
+          (* `$+` / `$*` plant one of these, in the order sum.rs / product.rs list them *)
+          (let it_of := fun t => TFun [] (TTup [TBool; t]) in
+           mkReducers al an a o
+             [(it_of TInt, is_); (it_of TFloat, fs); (it_of TString, ss)]
+             [(it_of TInt, ip); (it_of TFloat, fp)]))
   end end end end end end end end end end end end.
 
 End Boot.
